@@ -373,6 +373,18 @@ def analyse(case, io):
             if before is not None and before != key:
                 add("C05:events-bracket", "before-names-other-batch", "before-flush event named %s, flushed %s" % (before, key))
             cur_flush = (a[0], a[1], a[2], before is not None)
+            if before is None and not case.get("params", {}).get("reentrant"):
+                # a flush the scheduler did not choose: legitimate only as the effect of a synchronous value() on an item of
+                # this very batch made by task code; otherwise asynq itself asked an uncomputed item for its value, i.e. it
+                # resumed (and unwrapped the yield of) a task that was still waiting for that item
+                tgt = sync_stack[-1][1] if sync_stack else None
+                ent = created.get(tgt, {}) if tgt is not None else {}
+                if not (ent.get("what") == "item" and (ent["extra"][0], ent["extra"][1]) == key):
+                    add("C03:resumed-while-uncomputed", "item-forced-by-resumed-task",
+                        "batch %s was flushed outside the scheduler's flush step and not by a synchronous value() of task code: "
+                        "a task was resumed while an item it had yielded was uncomputed" % (key,))
+                    add("C04:flush-only-when-stuck", "flushed-by-resuming-a-waiting-task",
+                        "batch %s was flushed by resuming a task that was still waiting for one of its items" % (key,))
             stale = [c for c in a[2] if item_root.get(_t(c), len(roots) - 1) != len(roots) - 1]
             if stale and before is not None and not any(_t(c) in awaited and item_root.get(_t(c)) == len(roots) - 1 for c in a[2]):
                 add("C08:fresh-scheduler", "stale-batch-flushed",
